@@ -1,5 +1,5 @@
 (* C14 -- Changing the maximum size on open. *)
-From VF Require Import Region Freelist Alloc RegionProofs AllocProofs ShrinkProofs.
+From VF Require Import Region Freelist Alloc RegionProofs AllocProofs MetaAllocProofs ShrinkProofs ExtentProofs.
 
 (* growing: exactly the additional pages become allocatable *)
 Theorem C14_grow_exact : forall a newMax, 0 < maxPages a -> a_end (data a) <= maxPages a -> maxPages a <= newMax ->
@@ -70,6 +70,20 @@ Theorem C14_old_area_avail_refuted : exists a,
   0 < maxPages a /\ maxPages a < a_end (data a) /\ 1 <= data_area_avail_old a.
 Proof. exact data_area_avail_old_refuted. Qed.
 Print Assumptions C14_old_area_avail_refuted.
+
+(* inside ANY write transaction without overflow area - every sequence of allocations, frees, overwrite-page and
+   meta page allocations with every growth of the meta area - neither end marker moves beyond the larger of the
+   end of the file at the begin of the transaction and the limit; the committed state may already extend beyond
+   the limit (Inv0 does not bound the end markers) *)
+Theorem C14_extent_in_transaction : forall a0 p a t,
+  Inv0 a0 -> 0 < maxPages a0 -> treach a0 p a t ->
+  let M := Z.max (a_end (meta a0)) (maxPages a0) in
+  (a_end (data a) <= M /\ a_end (meta a) <= M) /\ maxPages a = maxPages a0.
+Proof. exact extent_in_tx. Qed.
+Print Assumptions C14_extent_in_transaction.
+
+Example C14_ex_shrunk_state : Inv0 shrunk_ex /\ 0 < maxPages shrunk_ex /\ maxPages shrunk_ex < a_end (data shrunk_ex).
+Proof. exact shrunk_ex_inv0. Qed.
 
 (* the lock discipline of the init transaction (the max-size update) releases everything: C09 *)
 Example C14_ex : grow_data_end 64 1024 64 70 = 70 /\ grow_data_end 64 66 64 70 = 66 /\ grow_data_end 64 0 64 70 = 70 /\ grow_data_end 64 32 64 70 = 64.
